@@ -192,6 +192,11 @@ func (ma *multiAsker) Ask(ctx context.Context, resp []byte, dst Addr, data p2p.I
 	if !ok {
 		return 0, ErrTransportNotExist
 	}
+	for _, s := range ma.swarms {
+		if p2p.VecSize(data) > s.MTU() {
+			return 0, p2p.ErrMTUExceeded
+		}
+	}
 	return t.Ask(ctx, resp, dst.Addr, data)
 }
 
